@@ -6,16 +6,22 @@ package main
 // fake server, optionally with 1…8 racing goroutines that keep starting single-request operations on the same
 // Client. The server→client byte stream is ended (EOF or read error) after exactly N bytes — N ranging over
 // every byte offset of the reply stream (thorough) or every frame boundary −1/0/+1 plus PRNG offsets (quick) —
-// or the client→server stream is failed after k requests. Cases run sequentially in child processes so that
-// the goroutine table after Close belongs to one case only, and a panic (“send on closed channel”, …) is
-// observed as the child's exit.
+// or the client→server stream is failed after k requests (failinput: the server side closes the stream, pending
+// and later writes fail) or from the client's k-th Write call on (failwrite: exact for every schedule; the
+// reply stream stays alive until the scenario has returned, i.e. only the failing caller knows). The failing
+// transport returns a chosen ERROR VALUE (cli_faultpeer.go: io.EOF as x/crypto/ssh's channel does, wrapped
+// EOFs, io.ErrUnexpectedEOF, io.ErrClosedPipe, os.ErrDeadlineExceeded, *net.OpError{EPIPE|ECONNRESET}, …):
+// a transport error that looks like the protocol's end-of-file / end-of-listing marker must still be an error.
+// Cases run sequentially in child processes so that the goroutine table after Close belongs to one case only,
+// and a panic (“send on closed channel”, …) is observed as the child's exit.
 
 import (
+	"context"
 	"encoding/json"
-	"errors"
 	"fmt"
 	"io"
 	"math/rand"
+	"os"
 	"runtime"
 	"sort"
 	"strings"
@@ -35,8 +41,9 @@ func init() {
 
 type c04Case struct {
 	Op     string `json:"op"`
-	Fault  string `json:"fault"` // none | cut (EOF) | err (read error) | failinput (client->server write fails)
-	At     int    `json:"at"`    // cut/err: the reply stream ends after this many bytes; failinput: after this many requests were received
+	Fault  string `json:"fault"` // none | cut (EOF) | err (read error) | failinput (client->server stream closed by the peer) | failwrite (the client's k-th Write call and all later ones fail)
+	At     int    `json:"at"`    // cut/err: the reply stream ends after this many bytes; failinput: after this many requests were received; failwrite: this many Write calls succeed after the handshake
+	Err    string `json:"errv,omitempty"` // the error value the failing transport returns (cliErrKinds; "" = the historical fixed value)
 	Racers int    `json:"racers"`
 	Seed   int64  `json:"seed,omitempty"`
 }
@@ -53,6 +60,7 @@ type c04Call struct {
 type c04Res struct {
 	Frames   []int     `json:"frames,omitempty"` // dry run: sizes of the reply frames in order
 	NReq     int       `json:"nreq,omitempty"`
+	NWrites  int       `json:"nwrites,omitempty"` // Write calls of the client after the handshake (dry run: how many there are to fail)
 	Calls    []c04Call `json:"calls,omitempty"`
 	CutAt    int       `json:"cut_at"` // bytes really delivered before the stream ended
 	InFlight int       `json:"in_flight"` // requests received and unanswered when the stream ended
@@ -63,8 +71,6 @@ type c04Res struct {
 	Fails    []c20Fail `json:"fails,omitempty"`
 	ExitNow  bool      `json:"-"`
 }
-
-var errC04Injected = errors.New("injected transport failure")
 
 type c04ReqRec struct {
 	call      string // name of the scenario call the request belongs to ("" for a racer), decided by CONTENT
@@ -101,7 +107,7 @@ func c04Dry(op string) *c04Res {
 // c04Optional says whether the operation's result may be complete without the reply to this request.
 func c04Optional(op string, typ byte, off uint64) bool {
 	switch {
-	case (op == "ReadDir" || op == "RemoveAll") && typ == wire.Close:
+	case (strings.HasPrefix(op, "ReadDir") || strings.HasPrefix(op, "RemoveAll") || strings.HasPrefix(op, "Walk") || strings.HasPrefix(op, "Glob")) && typ == wire.Close:
 		return true // the listing's deferred close: its error is dropped by design
 	case strings.HasPrefix(op, "File.WriteTo-concurrent") && typ == wire.Read && off >= 64:
 		return true // speculative reads beyond the one that reports EOF
@@ -111,27 +117,128 @@ func c04Optional(op string, typ byte, off uint64) bool {
 	return false
 }
 
+// ---------- operations of C04 only: multi-batch listings and the composites built on them ----------
+
+// c04Tree: "dir" is listed in three batches (".", ".." and a file; a sub-directory and a file; a file), then EOF;
+// "dir/sub" in two.
+func c04Tree() map[string][][]wire.NameEnt {
+	d := func(name string) wire.NameEnt {
+		return wire.NameEnt{Name: name, Long: "drwxr-xr-x 1 u g 0 Jan 1 00:00 " + name, A: wire.St{Flags: wire.ASize | wire.APerm, Perm: 0o40755}}
+	}
+	f := func(name string, size uint64) wire.NameEnt {
+		return wire.NameEnt{Name: name, Long: "-rw-r--r-- 1 u g 0 Jan 1 00:00 " + name, A: wire.St{Flags: wire.ASize | wire.APerm, Size: size, Perm: 0o100644}}
+	}
+	return map[string][][]wire.NameEnt{
+		"dir":     {{d("."), d(".."), f("alpha", 40)}, {d("sub"), f("beta", 7)}, {f("gamma", 1)}},
+		"dir/sub": {{f("delta", 2)}, {f("epsilon", 3)}},
+	}
+}
+
+func c04Ops() []cliOp {
+	tree := func(f *fakeSrv) { f.tree = c04Tree() }
+	list := func(fis []os.FileInfo) string {
+		var s []string
+		for _, fi := range fis {
+			s = append(s, fmt.Sprintf("%s:%d:%v", fi.Name(), fi.Size(), fi.IsDir()))
+		}
+		return strings.Join(s, ",")
+	}
+	extra := []cliOp{
+		{Name: "ReadDir-batches", Fake: tree, Run: func(e *cliOpEnv) (string, error) {
+			fis, err := e.c.ReadDir("dir")
+			return list(fis), err
+		}},
+		{Name: "ReadDirContext-batches", Fake: tree, Run: func(e *cliOpEnv) (string, error) {
+			ctx, cancel := context.WithCancel(context.Background())
+			defer cancel()
+			fis, err := e.c.ReadDirContext(ctx, "dir/sub")
+			return list(fis), err
+		}},
+		{Name: "Walk-tree", Fake: tree, Run: func(e *cliOpEnv) (string, error) {
+			// the walker hands out errors step by step: the operation's result is every path visited and the first error
+			w := e.c.Walk("dir")
+			var seen []string
+			var first error
+			for n := 0; n < 1000 && w.Step(); n++ {
+				if err := w.Err(); err != nil {
+					if first == nil {
+						first = err
+					}
+					continue
+				}
+				seen = append(seen, w.Path())
+			}
+			return strings.Join(seen, ","), first
+		}},
+		{Name: "Glob-tree", Fake: tree, Run: func(e *cliOpEnv) (string, error) {
+			m, err := e.c.Glob("dir/*/*")
+			return strings.Join(m, ","), err
+		}},
+		{Name: "RemoveAll-tree", Fake: tree, Run: func(e *cliOpEnv) (string, error) { return "", e.c.RemoveAll("dir") }},
+	}
+	return append(cliOps(), extra...)
+}
+
+func c04OpByName(name string) *cliOp {
+	for _, o := range c04Ops() {
+		if o.Name == name {
+			o := o
+			return &o
+		}
+	}
+	return nil
+}
+
+// c04SwallowsErrors: Client.Glob documents that it "ignores file system errors such as I/O errors reading
+// directories. The only possible returned error is ErrBadPattern" — the one API whose contract contradicts
+// "returns an error"; for it only the bounded return, the result after complete replies, Wait/Close and the
+// goroutine table are checked.
+func c04SwallowsErrors(call string) bool { return strings.HasPrefix(call, "Glob") }
+
 func c04Run(cs c04Case, checkGoroutines bool) (res c04Res) {
-	op := cliOpByName(cs.Op)
+	op := c04OpByName(cs.Op)
 	if op == nil {
 		res.Fails = append(res.Fails, c20Fail{Key: "tie/unknown-op", What: cs.Op})
 		return
 	}
 	fail := func(key, what string, act any) { res.Fails = append(res.Fails, c20Fail{key, what, act}) }
+	dir := "write"
+	if cs.Fault == "err" {
+		dir = "read"
+	}
+	ferr, family, known := cliErrValue(cs.Err, dir)
+	if !known {
+		fail("tie/unknown-error-kind", cs.Err, nil)
+		return
+	}
+	// fkey is the fault's part of every key: the fault, and what the error value claims to be when it is
+	// not an opaque one (a defect that needs an EOF-like value is not the defect that shows with any value)
+	fkey := cs.Fault
+	if family != "opaque" {
+		fkey += "/errv:" + family
+	}
 	rng := rand.New(rand.NewSource(cs.Seed))
 	fake := newFakeSrv(cliFileSize)
 	if op.Fake != nil {
 		op.Fake(fake)
 	}
-	client, peer, err := peers.NewClient(cliVersion(), cliClientOpts(op)...)
+	var mu sync.Mutex
+	var recs []*c04ReqRec
+	var trace []string
+	passN := -1
+	if cs.Fault == "failwrite" {
+		passN = cs.At
+	}
+	client, peer, err := newFaultClient(cliVersion(), passN, ferr, func(call int) {
+		mu.Lock()
+		trace = append(trace, fmt.Sprintf("write-call#%d fails: %v", call, ferr))
+		mu.Unlock()
+	}, cliClientOpts(op)...)
 	if err != nil {
 		fail("tie/new-client", err.Error(), nil)
 		return
 	}
 
-	var mu sync.Mutex
-	var recs []*c04ReqRec
-	var trace []string
 	var cutDone atomic.Bool
 	sent := 0
 	nreq := 0
@@ -150,7 +257,7 @@ func c04Run(cs c04Case, checkGoroutines bool) (res c04Res) {
 			return
 		}
 		if cs.Fault == "err" {
-			peer.FailOutput(errC04Injected)
+			peer.FailOutput(ferr)
 		} else {
 			peer.CutOutput()
 		}
@@ -165,7 +272,7 @@ func c04Run(cs c04Case, checkGoroutines bool) (res c04Res) {
 		doCut()
 	}
 	if cs.Fault == "failinput" && cs.At == 0 {
-		peer.FailInput(errC04Injected)
+		peer.FailInput(ferr)
 	}
 	srvDone := make(chan struct{})
 	go func() {
@@ -194,9 +301,9 @@ func c04Run(cs c04Case, checkGoroutines bool) (res c04Res) {
 			trace = append(trace, fmt.Sprintf("req#%d typ%d", p.ID(), p.Typ))
 			mu.Unlock()
 			if cs.Fault == "failinput" && n == cs.At {
-				peer.FailInput(errC04Injected)
+				peer.FailInput(ferr)
 				mu.Lock()
-				trace = append(trace, "fail-input")
+				trace = append(trace, fmt.Sprintf("fail-input: %v", ferr))
 				mu.Unlock()
 			}
 			if cutDone.Load() {
@@ -311,7 +418,7 @@ func c04Run(cs c04Case, checkGoroutines bool) (res c04Res) {
 		if !cliWithin(cliDeadline, func() { s, err = f() }) {
 			hung = true
 			started, callers := cliPkgGoroutines()
-			fail("hang/"+name+"/"+cs.Fault, fmt.Sprintf("%s did not return within 20 s after the transport failed", name), cliDescribe(append(callers, started...)))
+			fail("hang/"+name+"/"+fkey, fmt.Sprintf("%s did not return within 20 s after the transport failed", name), cliDescribe(append(callers, started...)))
 			res.Calls = append(res.Calls, c04Call{Name: name, Err: "HANG", Failed: true})
 			return
 		}
@@ -346,8 +453,8 @@ func c04Run(cs c04Case, checkGoroutines bool) (res c04Res) {
 
 	// ---- end the stream now if the scenario was shorter than the cut offset ----
 	if cs.Fault != "none" && cs.Fault != "selftest-leak" && !hung {
-		if cs.Fault == "failinput" {
-			peer.FailInput(errC04Injected) // no further write can succeed
+		if cs.Fault == "failinput" || cs.Fault == "failwrite" {
+			peer.FailInput(ferr) // no further write can succeed (failwrite: none could since the k-th; now the peer sees the stream end, too)
 		} else {
 			// the server goroutine owns `sent`; cutting here is only reached when At lies beyond the stream
 			doCut()
@@ -367,14 +474,14 @@ func c04Run(cs c04Case, checkGoroutines bool) (res c04Res) {
 		}
 		for _, c := range res.Calls[nScenario:] {
 			if !c.Failed {
-				fail("after-call-succeeded/"+c.Name+"/"+cs.Fault, c.Name+" started after the connection was lost returned no error", c)
+				fail("after-call-succeeded/"+c.Name+"/"+fkey, c.Name+" started after the connection was lost returned no error", c)
 			}
 		}
 	}
 	close(stopRacers)
 	if !cliWithin(cliDeadline+5*time.Second, rwg.Wait) {
 		hung = true
-		fail("hang/racer/"+cs.Fault, "a racing caller did not return within 20 s", cliDescribe(cliGoroutines2()))
+		fail("hang/racer/"+fkey, "a racing caller did not return within 20 s", cliDescribe(cliGoroutines2()))
 	}
 	if hung {
 		res.ExitNow = true
@@ -399,13 +506,13 @@ func c04Run(cs c04Case, checkGoroutines bool) (res c04Res) {
 		// the server notices its input ended and exits (srv goroutine cuts the output); nothing to do
 	}
 	if !cliWithin(cliDeadline, func() { client.Wait() }) {
-		fail("wait-hang/"+cs.Fault, "Client.Wait did not return within 20 s after the connection was lost", cliDescribe(cliGoroutines2()))
+		fail("wait-hang/"+fkey, "Client.Wait did not return within 20 s after the connection was lost", cliDescribe(cliGoroutines2()))
 		res.ExitNow = true
 		peer.Shutdown()
 		return
 	}
 	if !cliWithin(cliDeadline, func() { client.Close() }) {
-		fail("close-hang/"+cs.Fault, "Client.Close did not return within 20 s after the connection was lost", cliDescribe(cliGoroutines2()))
+		fail("close-hang/"+fkey, "Client.Close did not return within 20 s after the connection was lost", cliDescribe(cliGoroutines2()))
 		res.ExitNow = true
 		peer.Shutdown()
 		return
@@ -436,6 +543,7 @@ func c04Run(cs c04Case, checkGoroutines bool) (res c04Res) {
 	mu.Lock()
 	defer mu.Unlock()
 	res.NReq = nreq
+	res.NWrites, _ = peer.W.counts()
 	res.Trace = trace
 	for _, rec := range recs {
 		if !rec.delivered {
@@ -474,8 +582,8 @@ func c04Run(cs c04Case, checkGoroutines bool) (res c04Res) {
 		}
 		switch need {
 		case "lost":
-			if !c.Failed {
-				fail("no-error/"+c.Name+"/"+cs.Fault, c.Name+" returned no error although the reply to one of its requests was not delivered completely before the connection was lost", *c)
+			if !c.Failed && !c04SwallowsErrors(c.Name) {
+				fail("no-error/"+c.Name+"/"+fkey, c.Name+" returned no error although the reply to one of its requests was not delivered completely before the connection was lost (or the request could not be written): a truncated result is reported as success", map[string]any{"call": *c, "transport_error": cliErrStr(ferr)})
 			}
 		case "ok":
 			var want *c04Call
@@ -485,12 +593,12 @@ func c04Run(cs c04Case, checkGoroutines bool) (res c04Res) {
 				}
 			}
 			if want != nil && (c.Failed != want.Failed || c.Summary != want.Summary) {
-				fail("lost-reply/"+c.Name+"/"+cs.Fault, c.Name+": every reply it needs had been received completely before the connection was lost, yet it did not return the result of those replies", map[string]any{"got": *c, "want": *want})
+				fail("lost-reply/"+c.Name+"/"+fkey, c.Name+": every reply it needs had been received completely before the connection was lost, yet it did not return the result of those replies", map[string]any{"got": *c, "want": *want})
 			}
 		case "none":
 			// no request of this call reached the server: it must have failed (nothing can have answered it)
-			if !c.Failed && c.Name != "setup-open" && dry != nil {
-				fail("no-error/"+c.Name+"/"+cs.Fault, c.Name+" returned no error although none of its requests reached the server", *c)
+			if !c.Failed && c.Name != "setup-open" && dry != nil && !c04SwallowsErrors(c.Name) {
+				fail("no-error/"+c.Name+"/"+fkey, c.Name+" returned no error although none of its requests reached the server", map[string]any{"call": *c, "transport_error": cliErrStr(ferr)})
 			}
 		}
 	}
@@ -508,14 +616,14 @@ func c04Run(cs c04Case, checkGoroutines bool) (res c04Res) {
 		case rc.ok:
 			res.RacerOK++
 			if rc.afterCut {
-				fail("after-call-succeeded/racer/"+cs.Fault, "a racing call started after the connection was lost returned no error", rc.path)
+				fail("after-call-succeeded/racer/"+fkey, "a racing call started after the connection was lost returned no error", rc.path)
 			} else if !delivered[rc.path] {
-				fail("no-error/racer/"+cs.Fault, "a racing call returned no error although its reply was not delivered", rc.path)
+				fail("no-error/racer/"+fkey, "a racing call returned no error although its reply was not delivered", rc.path)
 			}
 		default:
 			res.RacerErr++
 			if delivered[rc.path] && !strings.Contains(rc.path, "never") {
-				fail("lost-reply/racer/"+cs.Fault, "a racing call whose reply had been delivered completely returned an error", map[string]string{"path": rc.path, "err": rc.errText})
+				fail("lost-reply/racer/"+fkey, "a racing call whose reply had been delivered completely returned an error", map[string]string{"path": rc.path, "err": rc.errText})
 			}
 		}
 	}
@@ -610,12 +718,31 @@ func c04Run(cs c04Case, checkGoroutines bool) (res c04Res) {
 func checkC04(c *lib.Ctx) {
 	r := c.R
 	thorough := c.Tier == "thorough"
-	r.Rule = "scenario = [open] + one of the operations of cmd/vh/cli_ops.go (single calls; ReadDir; single-chunk, sequential and concurrent multi-chunk ReadAt/WriteTo/WriteAt/Write/ReadFrom) + [File.Close] on a real Client against a fake server, with 0…8 racing goroutines that keep starting Stat/Lstat/ReadLink/RealPath/Mkdir on the same Client. Faults: reply stream ended by EOF (cut) or by a read error (err) after N bytes — thorough: every N in 0…len(stream); quick: every frame boundary −1/0/+1 and PRNG offsets —; client→server stream failed after k requests, every k; with racers: PRNG offsets and seeds. After the fault: Stat, ReadDir, File.ReadAt, File.WriteAt are started and must fail; Wait and Close must return within 20 s; the goroutine table is polled ≤ 5 s for goroutines created by pkg/sftp. Non-trivial = fault injected; distinct by (operation, fault, offset, racers, seed)."
+	r.Rule = "scenario = [open] + one operation + [File.Close] on a real Client against a fake server, with 0…8 racing goroutines that keep starting Stat/Lstat/ReadLink/RealPath/Mkdir on the same Client. Operations: cmd/vh/cli_ops.go (single calls; ReadDir; single-chunk, sequential and concurrent multi-chunk ReadAt/WriteTo/WriteAt/Write/ReadFrom) and c04Ops (ReadDir/ReadDirContext over several READDIR batches, Walk, Glob and RemoveAll over a two-level tree). Faults: reply stream ended by EOF (cut) or by a Read error (err) after N bytes — thorough: every N in 0…len(stream); quick: every frame boundary −1/0/+1 and PRNG offsets —; client→server stream closed by the peer after k requests (failinput), every k; the client's k-th Write call and every later one fail while the reply stream stays alive (failwrite), every k (header and payload writes are separate calls). ERROR VALUES of the failing Read/Write: the table cliErrKinds (opaque sentinel and type, io.EOF, %w-wrapped / doubly wrapped / *net.OpError-wrapped / Is-method / errors.Join'ed EOF, io.ErrUnexpectedEOF plain and wrapped, io.ErrClosedPipe, os.ErrClosed in *os.PathError, net.ErrClosed, os.ErrDeadlineExceeded plain and in *net.OpError, EPIPE / ECONNRESET in *net.OpError, bare EPIPE): failinput and failwrite × every k × every value (quick, single-request operations: one value per family + 2 rotating); err × every offset × one rotating value plus every value at 4 offsets (thorough: every offset × every value). With racers: PRNG offsets, values and seeds. Oracles: a call with a request whose reply was not delivered completely, or that could not be written, returns a non-nil error (never a truncated success; Glob, which documents that it swallows I/O errors, exempt); a call whose replies were all delivered returns the result of the fault-free run; Stat, ReadDir, File.ReadAt, File.WriteAt started after the fault fail; nothing hangs (20 s); Wait and Close return; the goroutine table is polled ≤ 5 s for goroutines created by pkg/sftp. Non-trivial = fault injected; distinct by (operation, fault, offset, error value, racers, seed)."
 	workers := runtime.NumCPU()
 	if workers > 16 {
 		workers = 16
 	}
-	ops := cliOps()
+	ops := c04Ops()
+	// the error values; "custom" is the historical fixed value, written "" in the cases
+	var wkinds, rkinds []string
+	for _, k := range cliErrKinds("write") {
+		if k.Name != "custom" {
+			wkinds = append(wkinds, k.Name)
+			if k.Name != "eof" {
+				rkinds = append(rkinds, k.Name) // a read error io.EOF is the fault "cut"
+			}
+		}
+	}
+	wkindsAll := append([]string{""}, wkinds...)
+	var wkindsFam []string // the first value of every family but the opaque one
+	fam := map[string]bool{"opaque": true}
+	for _, k := range cliErrKinds("write") {
+		if !fam[k.Family] {
+			fam[k.Family] = true
+			wkindsFam = append(wkindsFam, k.Name)
+		}
+	}
 	var cases []c04Case
 	if c.Replay != "" {
 		var one c04Case
@@ -689,11 +816,57 @@ func checkC04(c *lib.Ctx) {
 				sorted = append(sorted, n)
 			}
 			sort.Ints(sorted)
-			for _, n := range sorted {
+			// ---- server→client: the stream ends (EOF) or the Read fails with an error value ----
+			rot := c.Rand.Intn(len(rkinds))
+			for i, n := range sorted {
 				cases = append(cases, c04Case{Op: op.Name, Fault: "cut", At: n}, c04Case{Op: op.Name, Fault: "err", At: n})
+				if thorough {
+					for _, k := range rkinds {
+						cases = append(cases, c04Case{Op: op.Name, Fault: "err", At: n, Err: k})
+					}
+				} else {
+					// every offset with one more value, rotating through the table
+					cases = append(cases, c04Case{Op: op.Name, Fault: "err", At: n, Err: rkinds[(i+rot)%len(rkinds)]})
+				}
+			}
+			if !thorough {
+				// every value at the start of the stream, on a frame boundary, inside a length word and inside a body
+				for _, k := range rkinds {
+					b := bounds[c.Rand.Intn(len(bounds))]
+					for _, n := range []int{0, b, b + 1 + c.Rand.Intn(3), b + 4 + c.Rand.Intn(5)} {
+						cases = append(cases, c04Case{Op: op.Name, Fault: "err", At: min(n, total), Err: k})
+					}
+				}
+			}
+			// ---- client→server: every request index / every Write call × every error value ----
+			// (quick, operations of a single request: one value of every family and two more, rotating)
+			own := 0
+			for _, cl := range d.Calls {
+				if cl.Name == op.Name {
+					own = cl.NReq
+				}
+			}
+			values := func(k int) []string {
+				if thorough || own >= 2 {
+					return wkinds
+				}
+				v := append([]string(nil), wkindsFam...)
+				for j := 0; j < 2; j++ {
+					v = append(v, wkinds[(rot+2*k+j)%len(wkinds)])
+				}
+				return v
 			}
 			for k := 0; k <= d.NReq+1; k++ {
 				cases = append(cases, c04Case{Op: op.Name, Fault: "failinput", At: k})
+				for _, e := range values(k) {
+					cases = append(cases, c04Case{Op: op.Name, Fault: "failinput", At: k, Err: e})
+				}
+			}
+			for k := 0; k <= d.NWrites+1; k++ {
+				cases = append(cases, c04Case{Op: op.Name, Fault: "failwrite", At: k})
+				for _, e := range values(k) {
+					cases = append(cases, c04Case{Op: op.Name, Fault: "failwrite", At: k, Err: e})
+				}
 			}
 			// racing registrants
 			perRacer := 8
@@ -703,11 +876,24 @@ func checkC04(c *lib.Ctx) {
 			for racers := 1; racers <= 8; racers++ {
 				for k := 0; k < perRacer; k++ {
 					fault := []string{"cut", "err"}[c.Rand.Intn(2)]
+					errv := ""
+					if fault == "err" && c.Rand.Intn(2) == 0 {
+						errv = rkinds[c.Rand.Intn(len(rkinds))]
+					}
 					// the racers' replies share the stream: offsets up to a few times the scenario's own stream
-					cases = append(cases, c04Case{Op: op.Name, Fault: fault, At: c.Rand.Intn(total*(1+racers) + 2), Racers: racers, Seed: c.Rand.Int63()})
+					cases = append(cases, c04Case{Op: op.Name, Fault: fault, At: c.Rand.Intn(total*(1+racers) + 2), Racers: racers, Seed: c.Rand.Int63(), Err: errv})
 				}
-				if thorough || racers%4 == 0 {
-					cases = append(cases, c04Case{Op: op.Name, Fault: "failinput", At: c.Rand.Intn(d.NReq*(1+racers) + 2), Racers: racers, Seed: c.Rand.Int63()})
+				nw := 1
+				if thorough {
+					nw = 6
+				}
+				for k := 0; k < nw; k++ {
+					if thorough || racers%4 == 0 {
+						cases = append(cases, c04Case{Op: op.Name, Fault: "failinput", At: c.Rand.Intn(d.NReq*(1+racers) + 2), Racers: racers, Seed: c.Rand.Int63(), Err: wkindsAll[c.Rand.Intn(len(wkindsAll))]})
+					}
+					if thorough || racers%4 == 1 {
+						cases = append(cases, c04Case{Op: op.Name, Fault: "failwrite", At: c.Rand.Intn(d.NWrites*(1+racers) + 2), Racers: racers, Seed: c.Rand.Int63(), Err: wkindsAll[c.Rand.Intn(len(wkindsAll))]})
+					}
 				}
 			}
 		}
@@ -721,7 +907,9 @@ func checkC04(c *lib.Ctx) {
 	for i, cs := range cases {
 		raws[i], _ = json.Marshal(cs)
 	}
+	t0 := time.Now()
 	results, deaths, err := cliRunPool("c04", nil, raws, workers, 120*time.Second, nil)
+	poolWall := time.Since(t0)
 	if err != nil {
 		r.Fail(lib.Failure{Kind: "tie", Key: "child-start", What: err.Error()})
 		return
@@ -741,9 +929,16 @@ func checkC04(c *lib.Ctx) {
 			}
 			continue
 		}
-		r.Case(fmt.Sprintf("%s/%s@%d/r%d/s%d", cs.Op, cs.Fault, cs.At, cs.Racers, cs.Seed), cs.Fault != "none")
+		r.Case(fmt.Sprintf("%s/%s@%d/r%d/s%d/e%s", cs.Op, cs.Fault, cs.At, cs.Racers, cs.Seed, cs.Err), cs.Fault != "none")
 		r.Hist("op/" + cs.Op)
 		r.Hist(fmt.Sprintf("fault/%s/racers=%d", cs.Fault, cs.Racers))
+		if cs.Fault == "err" || cs.Fault == "failinput" || cs.Fault == "failwrite" {
+			ev := cs.Err
+			if ev == "" {
+				ev = "custom"
+			}
+			r.Hist("error-value/" + cs.Fault + "/" + ev)
+		}
 		if d := deaths[i]; d != nil {
 			key := d.Why + "/" + d.Site
 			if d.Site == "" {
@@ -793,7 +988,9 @@ func checkC04(c *lib.Ctx) {
 		}
 	}
 	r.Note("racing calls observed: %d succeeded (reply delivered before the loss), %d failed", racerOK, racerErr)
+	t1 := time.Now()
 	n := connCompare(c, "c04", connLines, connInputs)
+	r.Note("wall: %d cases in child processes %.1fs, model comparison %.1fs", len(cases), poolWall.Seconds(), time.Since(t1).Seconds())
 	r.Note("connection model: %d recorded schedules (%d requests on the wire; arrivals, complete replies, the end of the reply stream, then C B and the returns) replayed with conn.run and compared (enabledness, outcome reply:<sid>:<token>|lost|senderr of every request whose result the harness can attribute, wire, closed=1, framed, recv=stopped)", n, connReqs)
 	r.Note("not expressible / not observable for conn.run: a PARTIAL reply (only the E that follows it); the byte position of a failed client→server write (a caller whose write failed is replayed as l x f without header, whatever part of the frame had left); per-request results inside a multi-request call that failed (masked); the requests of the multi-chunk calls started after the fault, which never reach the wire (only the ids they consumed appear, as callers that draw an id and stay pending); the relative order of putChannel/Lock steps of different callers and of f against B (any order consistent with the observed wire order and the observed error class is chosen)")
 }
